@@ -213,7 +213,7 @@ GROUPS = {
     "silence": ("GenSilence.v", "TieSilence.v", ["tie_make_silence"]),
     "buf": ("GenBuf.v", "TieBuf.v", ["tie_buf_read", "tie_buf_setpos", "tie_buf_getpos", "tie_buf_getpos_ms"]),
     "fmt": ("GenFmt.v", "TieFmt.v", ["tie_fields"]),
-    "reader": ("GenReader.v", "TieReader.v", ["tie_reader_params"]),
+    "reader": ("GenReader.v", "TieReader.v", ["tie_reader_params", "tie_lim_read", "tie_rec_read", "tie_fixed_read"]),
     "loops": ("GenLoops.v", "TieLoops.v", ["tie_run_turn", "tie_stop_requested", "tie_tok_read", "tie_programs"]),
 }
 
@@ -1071,6 +1071,84 @@ def ret_reader_params(tr, v, env, node):
     return "Ok (%s, %s, %s)" % (v.const[0].text, opt(v.const[1]), opt(v.const[2]))
 
 
+class ReaderPure(Pure):
+    """methods of the reader wrappers: the layer below is an oracle `inner : Z -> option block` asked once per call
+    (`self._audio_source.read(e)`); a block is a list of whole samples (C11), so `len(block) // self._bytes_per_sample`
+    is its number of samples and nothing else may be done with its length; `self._cache.append(block)` extends the
+    recorded data (the model keeps the cache concatenated)."""
+    def expr(self, e, env, binds):
+        if isinstance(e, ast.Compare) and len(e.ops) == 1 and isinstance(e.ops[0], (ast.Is, ast.IsNot)):
+            a = self.expr(e.left, env, binds)
+            if a.ty == "block":
+                b = self.expr(e.comparators[0], env, binds)
+                if b.ty != "none":
+                    bad(e, "block compared by identity with something else than None")
+                return FALSE_ if isinstance(e.ops[0], ast.Is) else TRUE_
+        if isinstance(e, ast.BinOp) and isinstance(e.op, ast.FloorDiv) and isinstance(e.left, ast.Call) and isinstance(e.left.func, ast.Name) \
+                and e.left.func.id == "len" and len(e.left.args) == 1 and ast.unparse(e.right) == "self._bytes_per_sample":
+            a = self.expr(e.left.args[0], env, binds)
+            if a.ty == "block":
+                return V("(zlen %s)" % a.text, "Z")
+        if isinstance(e, ast.Call) and isinstance(e.func, ast.Name) and e.func.id == "len" and len(e.args) == 1:
+            a = self.expr(e.args[0], env, binds)
+            if a.ty == "block":
+                bad(e, "length of a block used otherwise than as len(block) // self._bytes_per_sample")
+        return super().expr(e, env, binds)
+
+    def block(self, stmts, env, k):
+        st = stmts[0] if stmts else None
+        call = None
+        if isinstance(st, ast.Assign) and len(st.targets) == 1 and isinstance(st.targets[0], ast.Name) and isinstance(st.value, ast.Call):
+            call = st.value
+        elif isinstance(st, ast.Return) and isinstance(st.value, ast.Call):
+            call = st.value
+        if call is not None and ast.unparse(call.func) == "self._audio_source.read" and len(call.args) == 1 and not call.keywords:
+            if self.asked:
+                bad(st, "the layer below is asked more than once in one call")
+            self.asked = True
+            binds = []
+            n = self.expr(call.args[0], env, binds)
+            if n.ty != "Z":
+                bad(st, "request of type %s to the layer below" % n.ty)
+            nm = self.new("blk")
+
+            def branch(val):
+                if isinstance(st, ast.Assign):
+                    env2 = dict(env); env2[st.targets[0].id] = val
+                    return self.block(stmts[1:], env2, k)
+                return self.spec.ret(self, val, env, st)
+            saved = self.asked
+            some = branch(V(nm, "block"))
+            self.asked = saved
+            none = branch(NONE)
+            return self.wrap(binds, "(match (inner %s) with Some %s => %s | None => %s end)" % (n.text, nm, some, none))
+        if isinstance(st, ast.Expr) and isinstance(st.value, ast.Call) and ast.unparse(st.value.func) == "self._cache.append" and len(st.value.args) == 1 \
+                and "self._cache" in env:
+            x = self.expr(st.value.args[0], env, [])
+            if x.ty != "block":
+                bad(st, "only blocks are recorded")
+            env = dict(env); nm = self.new("cache")
+            cur = env["self._cache"]
+            env["self._cache"] = V(nm, "bytes")
+            return "(let %s := (%s ++ %s) in %s)" % (nm, cur.text, x.text, self.block(stmts[1:], env, k))
+        return super().block(stmts, env, k)
+
+    asked = False
+
+
+def ret_layer(state_attr):
+    def ret(tr, v, env, node):
+        st = env["self." + state_attr].text if state_attr else None
+        if v.ty == "none":
+            out = "None"
+        elif v.ty == "block":
+            out = "(Some %s)" % v.text
+        else:
+            bad(node, "a read returns %s" % v.ty)
+        return "(%s, %s)" % (st, out) if st else out
+    return ret
+
+
 def gen_reader(repo):
     util = ast.parse(open(os.path.join(repo, "auditok", "util.py")).read())
     out = list(HEADER)
@@ -1079,6 +1157,32 @@ def gen_reader(repo):
     sp = Spec("reader_params_gen", [("block_dur", "F"), ("hop_dur", "optF"), ("max_read", "optF"), ("sr", "Z")], ret_reader_params)
     out.append("(* slice of AudioReader.__init__ and the wrapper constructors:\n" + ast.unparse(f) + "\n*)")
     out.append(Pure(f, sp, module=util).translate())
+    out[3] = "From AV Require Import Base.PyList Base.PyFloat Tok.Model IO.Reader IO.Layers."
+    out.append("Section Lay.\nContext {S : Type}.\nVariable inner : Z -> option (list S).\n")
+    classes = {n.name: n for n in util.body if isinstance(n, ast.ClassDef)}
+
+    def meth(cname, mname):
+        c = classes.get(cname)
+        m = [n for n in (c.body if c else []) if isinstance(n, ast.FunctionDef) and n.name == mname and not n.decorator_list]
+        if len(m) != 1:
+            raise TranslationError("%s.%s not found exactly once" % (cname, mname))
+        return c, m[0]
+    c, m = meth("_Limiter", "read")
+    sp = Spec("lim_read_gen", [("size", "Z")], ret_layer("_read_samples"), self_attrs={"_max_samples": ("mx", "Z")}, state=[("_read_samples", "nr", "Z")])
+    sp.extra_params = ["(mx nr : Z)"]
+    sp.ret_type = "Z * option (list S)"
+    out.append(ReaderPure(m, sp, module=util, cls=c).translate())
+    c, m = meth("_Recorder", "_read_and_cache")
+    sp = Spec("rec_read_gen", [("size", "Z")], ret_layer("_cache"), state=[("_cache", "cache", "bytes")])
+    sp.extra_params = ["(cache : list S)"]
+    sp.ret_type = "list S * option (list S)"
+    out.append(ReaderPure(m, sp, module=util, cls=c).translate())
+    c, m = meth("_FixedSizeAudioReader", "read")
+    sp = Spec("fixed_read_gen", [], ret_layer(None), self_attrs={"_block_size": ("W", "Z")})
+    sp.extra_params = ["(W : Z)"]
+    sp.ret_type = "option (list S)"
+    out.append(ReaderPure(m, sp, module=util, cls=c).translate())
+    out.append("End Lay.\n")
     return "\n".join(out)
 
 
